@@ -395,6 +395,10 @@ func (nw *Network) RunSchedule(sp ScheduleSpec) {
 	}
 	// end of shape: everybody back (unless the minority is dead for good)
 	for _, n := range nw.Nodes {
+		if nw.PinnedSilent[n.Idx] {
+			n.Silent = true
+			continue
+		}
 		if sp.KeepSilent && ss.silentSet != nil && ss.silentSet[n.Idx] && ss.silentUntil > sp.Steps {
 			n.Silent = true
 			continue
